@@ -2,10 +2,11 @@ CONSTANTS
  Oids = {"o1","o2"}
  Paths = {"p1","p2"}
  Branches = {"main","dev"}
- Ages = {0}
+ Ages = {0, 1}
  MaxCommits = 5
  MaxSteps = 7
  Emit = FALSE
+ Skew = TRUE
  Selections = {{"p1"}, {"p1","p2"}}
 SPECIFICATION MSpec
 VIEW MView
